@@ -42,6 +42,22 @@ ASSUMPTIONS = [
 ]
 REUSE = ['c01', 'c02', 'c03', 'c04', 'c05', 'c06', 'c07', 'c08', 'c10', 'c11', 'c12', 'c13', 'c14', 'c15', 'c16',
          'c17', 'c18', 'c19', 'c20']
+try:
+    import matplotlib
+
+    matplotlib.use('Agg')
+    _HAVE_MPL = True
+except Exception:  # noqa: BLE001
+    _HAVE_MPL = False
+
+
+def _close_fig(res):
+    import matplotlib.pyplot as plt
+
+    plt.close('all')
+    return res
+
+
 HISTORY_FAMILIES = ['graphs', 'atoms', 'models', 'cif', 'frames']
 PYTEST_DIRS = ['tests/conversion', 'tests/convert_test.py', 'tests/beamline_components_test.py', 'tests/chopper',
                'tests/tof', 'tests/peaks', 'tests/absorption', 'tests/io', 'tests/atoms', 'tests/metadata']
@@ -211,6 +227,12 @@ def alias_grid(ctx, shard):
                 call('FrameSequence.chop', lambda: fs.chop([ch]))
                 call('FrameSequence.propagate_to', lambda: fs.propagate_to(sc.scalar(30.0, unit='m')))
                 call('FrameSequence.__getitem__', lambda: fs.chop([ch])[sc.scalar(12.0, unit='m')])
+                call('Chopper.__getitem__', lambda: ch['cutout', 0:1])
+                call('Chopper.__getitem__[int]', lambda: fr.chop(ch['cutout', 1:2]))
+                if _HAVE_MPL:
+                    seq = fs.chop([ch]).propagate_to(sc.scalar(30.0, unit='m'))
+                    call('FrameSequence.acceptance_diagram', lambda: _close_fig(seq.acceptance_diagram()), (seq,))
+                    call('FrameSequence.draw', lambda: _close_fig(seq.draw()), (seq,))
                 # ---- disk chopper with angles already in rad float64
                 dc = DiskChopper(axle_position=sc.vector([0, 0, 8.0], unit='m'), frequency=sc.scalar(14.0, unit='Hz'),
                                  beam_position=sc.scalar(0.0, unit='rad'), phase=sc.scalar(0.5, unit='rad'),
@@ -419,6 +441,8 @@ def family_graphs():
         F[f'elastic_Q({s})'] = lambda s=s: GT.elastic_Q(s)
         F[f'elastic_Q_vec({s})'] = lambda s=s: GT.elastic_Q_vec(s)
         F[f'elastic_hkl({s})'] = lambda s=s: GT.elastic_hkl(s)
+    for s in ('tof', 'energy', 'Q'):
+        F[f'elastic_wavelength({s})'] = lambda s=s: GT.elastic_wavelength(s)
     F['direct_inelastic(tof)'] = lambda: GT.direct_inelastic('tof')
     F['indirect_inelastic(tof)'] = lambda: GT.indirect_inelastic('tof')
     for sflag in (True, False):
